@@ -12,7 +12,8 @@ in hex, `~` = absent / empty list)
    MODE = F<size> (fgets with a buffer of <size> bytes, every piece parsed on its own), G<size> (the repaired
    reader as written: fgets pieces of a <size>-byte buffer glued until a newline) or W (whole lines); ARG = one -w optarg (HEX) or
    one -x optarg (X followed by HEX)
-   a MODE ending in `+c`: `read_wcoll` closes the stream it opened (F10-TOPFD repaired)
+   `read_wcoll` closes the stream it opened (the code since /repo 8d15944); a MODE ending in `+leak`: the reader
+   before that commit (F10-TOPFD), sent only when the check's probe finds that form in the tree under check
    answer: STATUS NWARN CREATED EXPRS EXCL OPENED TOPOPEN REGEX  (STATUS ok|fatal|starved; lists comma separated;
    TOPOPEN = streams `read_wcoll` itself left open, `Opt/WcollTopFd.lean`)
 `pdshmodel wcoll spec`:
@@ -51,8 +52,8 @@ def runModel (line : String) : String :=
   match Driver.words line with
   | mode :: stdin :: env :: nargs :: rest =>
     let r : Option String := do
-      let closeTop := mode.endsWith "+c"
-      let mode := if closeTop then (mode.dropRight 2) else mode
+      let leak := mode.endsWith "+leak"
+      let mode := if leak then (mode.dropRight 5) else mode
       let mode : Wcoll.LineMode ←
         if mode = "W" then some .whole
         else if mode.startsWith "F" then (mode.drop 1).toString.toNat?.map .fgets
@@ -67,7 +68,7 @@ def runModel (line : String) : String :=
       | nf :: rest =>
         let nf ← nf.toNat?
         let (fs, _) ← parseFiles nf rest
-        let stT := Wcoll.assembleOptsT closeTop mode fs (stdin.getD []) args env
+        let stT := Wcoll.assembleOptsT leak mode fs (stdin.getD []) args env
         let st := stT.1
         let status := if st.starved then "starved" else if st.fatal then "fatal" else "ok"
         pure s!"{status} {st.nwarn} {if st.created then 1 else 0} {hxs st.exprs} {hxs st.excl} {hxs st.opened.flatten} {stT.2} {hxr st.regex}"
